@@ -674,7 +674,9 @@ def bounded(rep, tier):
                     continue                      # DML targets are named in the DML step, not fetched
                 first = t.parts[0].lower() if len(t.parts) > 1 else None
                 db = first if first in dbs else pl.default_namespace
-                if pl.get_predictor(t) is None and db is not None:
+                # a name qualified by a DATA integration is a table of that integration, whatever its schema.table part is spelled like (`int1.proj.pred2`)
+                in_data_integration = first in dbs and first not in {str(p_).lower() for p_ in (getattr(pl, 'projects', None) or [])}
+                if (in_data_integration or pl.get_predictor(t) is None) and db is not None:
                     want.add(db)
             def all_fetches(steps):
                 # fetch steps of the plan, including those nested in MultipleSteps / map-reduce containers
@@ -718,12 +720,14 @@ def bounded(rep, tier):
                     info = None
                 if info is None or (len(t.parts) == 1 and t.parts[0] in visible.get(id(t), ctes)):
                     continue
+                if len(t.parts) > 1 and str(t.parts[0]).lower() in dbs and str(t.parts[0]).lower() not in {str(p_).lower() for p_ in (getattr(pl, 'projects', None) or [])}:
+                    continue                      # a table of a data integration, not a model
                 parts_l = [str(p_).lower() for p_ in t.parts]
                 ns = str(info.get('integration_name') or '').lower()
                 tail = parts_l[1:] if len(parts_l) > 1 and parts_l[0] == ns else parts_l
                 want_models.add((ns, tuple(tail)))
             got_models = {(str(a_.namespace).lower(), tuple(str(p_).lower() for p_ in a_.predictor.parts)) for a_ in all_applies(plan.steps)}
-            if want_models and got_models and got_models != want_models:
+            if got_models != want_models and (want_models or got_models) and not (want_models and not got_models):
                 fails.setdefault(f'C10.bounded.model-identity.{qname.split(":")[0]}', (sql, f'[{cname}] models applied: {sorted(got_models)}, models named by the query: {sorted(want_models)}'))
             # (b) letter case of qualifiers does not matter
             sql_up = re.sub(r'\b(int1|int2|api1|proj|mindsdb)\.', lambda m: m.group(1).upper() + '.', sql)
